@@ -341,8 +341,13 @@ func preamble(bv bool) string {
 	sb.WriteString("(define-fun-rec rootid ((r Ref)) Int (ite ((_ is mkobj) r) (oid r) (ite ((_ is mksub) r) (rootid (sparent r)) (rootid (earr r)))))\n")
 	sb.WriteString("(define-fun-rec relem ((r Ref)) Ref (ite ((_ is mksub) r) (relem (sparent r)) r))\n")
 	sb.WriteString("(declare-fun dyntype (Ref) Int)\n")
-	sb.WriteString("(declare-sort Str 0)\n(declare-fun strlen (Str) Int)\n")
-	sb.WriteString("(assert (forall ((s Str)) (! (>= (strlen s) 0) :pattern ((strlen s)))))\n")
+	if bv {
+		sb.WriteString("(declare-sort Str 0)\n(declare-fun strlen (Str) (_ BitVec 64))\n")
+		sb.WriteString("(assert (forall ((s Str)) (! (bvule (strlen s) (_ bv1099511627776 64)) :pattern ((strlen s)))))\n")
+	} else {
+		sb.WriteString("(declare-sort Str 0)\n(declare-fun strlen (Str) Int)\n")
+		sb.WriteString("(assert (forall ((s Str)) (! (>= (strlen s) 0) :pattern ((strlen s)))))\n")
+	}
 	sb.WriteString("(declare-fun strid (Str) Int)\n(declare-fun strofid (Int) Str)\n(assert (forall ((s Str)) (! (= (strofid (strid s)) s) :pattern ((strid s)))))\n")
 	sb.WriteString("(declare-fun realid (Real) Int)\n(declare-fun fmul (Real Real) Real)\n(declare-fun fdiv (Real Real) Real)\n")
 	if !bv {
@@ -351,6 +356,11 @@ func preamble(bv bool) string {
 				sb.WriteString(fmt.Sprintf("(declare-fun %s%d (Int Int) Int)\n", op, w))
 			}
 		}
+	}
+	if bv {
+		sb.WriteString("(declare-fun sidx ((_ BitVec 64) (_ BitVec 64)) (_ BitVec 64))\n(assert (forall ((o (_ BitVec 64)) (k (_ BitVec 64))) (! (= (sidx o k) (bvadd o k)) :pattern ((sidx o k)))))\n")
+	} else {
+		sb.WriteString("(declare-fun sidx (Int Int) Int)\n(assert (forall ((o Int) (k Int)) (! (= (sidx o k) (+ o k)) :pattern ((sidx o k)))))\n")
 	}
 	sb.WriteString("(declare-const alloc0 Int)\n(assert (> alloc0 0))\n")
 	return sb.String()
